@@ -232,14 +232,15 @@ let with_schema (case : string) (f : ctx -> string -> 'a) : 'a =
 (* C03 driver.  Model result = the CLASS of the run in the vocabulary of the tie:
      OK <dump | hex>          the run returns
      EXC <class> [arg]        library exception
-     OOB extract_header       buffer overrun in extract_element called from extract_header
-     OOB decode               ... from MessageBase::decode / decode_group
+     OOB extract_header       buffer overrun in extract_element called from extract_header (repaired: d48d8ce)
+     OOB decode               overrun of tag[] / val[] of MessageBase::decode / decode_group (since d48d8ce only
+                              through extract_element_fixed_width)
      OOB encode               output[] of Message::encode(f8String&)
      OOB <site>               any other memory-error site of the codec model
      UB fast_atoi             UBSan site in fast_atoi<int> (message otherwise accepted)
      UB datetime              UBSan site in parse_decimal / time_to_epoch (field.hpp)
      UB calc_chksum           misaligned uint32 load in calc_chksum (CHKSUM op only)
-     HANG                     decode_group without progress
+     HANG                     decode_group without progress (repaired: a0d41df)
    Oracle (Spec_C03): c03_ok (obs_of_word <first word>) -- OK or EXC. *)
 let first_word (r : string) : string = match words r with w :: _ -> w | [] -> ""
 let oracle (r : string) : bool = c03_ok (obs_of_word (nlist_of_string (first_word r)))
@@ -266,7 +267,7 @@ let string_of_eclass (e : eclass) : string =
 
 (* fast_atoi<int> as the harness prints it *)
 let atoi_line (txt : n list) : string =
-  if atoi_ub txt then "UB fast_atoi" else "OK " ^ string_of_int (int_of_z (fast_atoi_i32 txt))
+  if atoi_ub txt then "UB fast_atoi" else "OK " ^ string_of_int (int_of_z (atoi_val txt))
 
 let c03_run (c : ctx) (case : string) : string =
   try
@@ -313,7 +314,7 @@ let schema_wf (c : ctx) : bool =
 let () = run_protocol (fun case0 impl -> with_schema case0 (fun c case ->
   if case = "SCHEMA" then
     (* which hypotheses of the theorems the compiled schema meets *)
-    let m = Printf.sprintf "OK wf=%s nohang=%s nodata=%s" (b01 (c03_wf c)) (b01 (c03_nohang c)) (b01 (c03_nodata c)) in
+    let m = Printf.sprintf "OK wf=%s nodata=%s" (b01 (c03_wf c)) (b01 (c03_nodata c)) in
     (m, oracle impl, oracle m)
   else if not (schema_wf c) then ("MODEL-ERROR schema violates c03_wf", oracle impl, false)
   else
